@@ -652,6 +652,81 @@ func (cx *Ctx) checkDestination(r *Report, fnKey, listField string) {
 	r.Check(bad == "" && n > 0, "R-GUARD", fnKey, w.FnPos(fn), fmt.Sprintf("%d accepting paths: Destination empty, or equal to the Location of an element of metadata.%s", n, listField), bad)
 }
 
+// checkDestinationAccepts (C07 direction of the destination rule): the function refuses only a request that names a
+// Destination and only when no comparison with an advertised location came out equal; a matching Destination is
+// accepted by some path. (checkDestination decides the other direction: nothing else is accepted.)
+func (cx *Ctx) checkDestinationAccepts(r *Report, fnKey string) {
+	w, fx := cx.W, cx.Fx
+	fn := w.Func(fnKey)
+	if fn == nil {
+		r.Fail("R-GUARD", fnKey+":accepts", "", "anchor function not found")
+		return
+	}
+	aps, ok := fx.atomPaths(fn, 4096)
+	if !ok {
+		r.Undecided("R-GUARD", fnKey+":accepts", w.FnPos(fn), "too many paths")
+		return
+	}
+	isDest := func(t string) bool { return strings.HasPrefix(t, "<samlp.") && strings.HasSuffix(t, ">.Destination") }
+	bad := ""
+	sawMatch := false
+	for i := range aps {
+		p := &aps[i]
+		isNil, nonNil := fx.errNilness(p, fx.retVal(p, 0))
+		named, matched := false, false
+		for _, a := range p.Atoms {
+			if a.Op == "EMPTY" && a.Neg && isDest(a.TA) {
+				named = true
+			}
+			if a.Op == "EQ" && !a.Neg && (isDest(a.TA) || isDest(a.TB)) {
+				matched = true
+			}
+		}
+		if isNil && matched {
+			sawMatch = true
+		}
+		if nonNil || !isNil {
+			if !named {
+				bad = "a request without Destination can be refused (" + atomsString(p.Atoms) + "): the attribute is optional"
+			}
+			if matched {
+				bad = "a request whose Destination equals an advertised location can still be refused (" + atomsString(p.Atoms) + ")"
+			}
+		}
+	}
+	if !sawMatch {
+		// a match that only sets a flag and lets the loop run on is accepted on a path that passes the loop
+		// header twice; look for a live block that lies under the positive comparison instead
+		for _, b := range fn.Blocks {
+			eq, dead := false, false
+			for _, a := range fx.AtomsAtBlock(b) {
+				if a.Op == "EQ" && !a.Neg && (isDest(a.TA) || isDest(a.TB)) {
+					eq = true
+				}
+				if k, isK := stripNot(a.Cond).(*ssa.Const); isK && k.Value != nil && a.Op == "TRUE" {
+					if (k.Value.ExactString() == "true") == a.Neg {
+						dead = true
+					}
+				}
+			}
+			if len(b.Instrs) > 0 {
+				if ifi, isIf := b.Instrs[len(b.Instrs)-1].(*ssa.If); isIf {
+					if _, isK := ifi.Cond.(*ssa.Const); isK {
+						dead = true // only decides on a constant: what lies behind it is judged there
+					}
+				}
+			}
+			if eq && !dead {
+				sawMatch = true
+			}
+		}
+	}
+	if bad == "" && !sawMatch {
+		bad = "no path accepts a request because its Destination equals an advertised location: every request that names its destination is refused"
+	}
+	r.Check(bad == "", "R-GUARD", fnKey+":accepts", w.FnPos(fn), "refuses only a named Destination that matched nothing; a matching Destination is accepted", bad)
+}
+
 // checkDestinationContent: in the scope of handler hk, the locations the Destination is compared with are built
 // from the endpoint configuration and the issuer in this request's context only (not read back from provider-wide
 // state such as a descriptor cache).
